@@ -160,3 +160,16 @@ add("C04", "exploration",
 text("C04",
      "a PKI living in simulated time: 1-3 roots, their intermediates and leaves (names of all id types incl. equal labels with different types, validities from seconds to beyond the parent's) and type pairings the public API refuses (intermediate under intermediate, leaf-typed signer, ...) are issued at drawn simulated instants; relying parties have drawn store subsets (roots, stored intermediates, wrong-typed and mutated anchors), presented-intermediate choices (right, wrong, none) and requested names (carried, same label other type, other, none); certificates reach the verifier as bytes with single-bit flips, single-field forgeries (type, parent fingerprint, name type, validity bounds, key), truncation and extension; the clock walks forward through every validity boundary; every VerifyLeaf / VerifyParent verdict is compared in BOTH directions with an executable reference model of the property's iff",
      TB, "deterministic simulation with fault injection (simulated clock walk + in-transit corruption against an executable reference model)", "DESIGN.md 4 C04")
+
+APP_REAL = ["hopserver (NewHopServerExt, newSession via overlay hook, checkAuthorization, AuthorizeKey, AuthorizeKeyAuthGrant, AddAuthGrant, checkCmd, checkIntent, handleAgc)",
+            "core.ParseAuthorizedKeys", "authgrants (grant map, messages, principal, target)", "userauth", "codex (request encoding/decoding)", "tubes", "transport", "config.UserDirectoryFor"]
+APP_STUB = ["file system (faulty fs.FS installed through an overlay hook; SetFSystem only accepts fstest.MapFS)", "OS user database (thunks.LookupUser)", "process creation (thunks.StartCmd refuses; PATH empty)",
+            "HopServer.Serve and the delegate-proxy unix socket (accepted handles are fed to the real newSession)", "the interactive hopclient (scripted clients use the real transport, tubes, userauth, codex and authgrants encoders)"]
+
+add("C05", "exploration",
+    [{"name": "login", "quick_s": 35, "thorough_s": 900}],
+    real=APP_REAL, stub=APP_STUB)
+text("C05",
+     "a real HopServer over a real transport server on the simulated network; per run three users with drawn key sets, authorized-keys files assembled from valid entries, other users' keys, comments, blank lines, garbage, wrong prefixes, truncated base64, wrong lengths, over-long lines, CRLF, in any order, served by a faulty fs.FS (missing file, EACCES/EIO on open, read error after k bytes, one-byte reads, torn and empty content); scripted clients log in concurrently as drawn users (also unknown and empty user names) with drawn keys while grants are added concurrently, with grants enabled or disabled, and the two authorisation entry points are also called directly; reference model: allowed(user,key) iff key is the decoded value of a well-formed line of the STORED content of that user's file, or a grant addition for exactly (user,key) was invoked before the confirmation and not yet used by another login; only the 'only if' direction is judged; grant conservation (added = handed out + still stored) under concurrent AddAuthGrant / AuthorizeKeyAuthGrant",
+     TB + "; which grant additions a login consumed is not observable, so each grant-based login is matched to its own addition (sound lower bound)",
+     "deterministic simulation with fault injection (faulty file system + concurrent logins against a reference model of listed keys and grants)", "DESIGN.md 4 C05")
